@@ -235,7 +235,7 @@ func init() {
 			}
 		}})
 
-	register(&Rule{ID: "C18.rebuild", Props: []string{"C18"}, Floor: 8,
+	register(&Rule{ID: "C18.rebuild", Props: []string{"C18", "C02", "C07", "C20"}, Floor: 8,
 		Doc: "on import, records are stored under keys built from their own fields and derived indexes from the record's fields and completion time",
 		Run: func(e *Engine, r *RuleRun) {
 			fn := r.Need("keeper.Keeper.InitGenesis")
